@@ -3,7 +3,7 @@ from common import *
 PID = 'C09'; HARNESS = 'C09.cpp'
 H_THROW = (-1000000) & 0xffffffff
 PK = ['FftPlan', 'FftPlanR', 'IfftPlan', 'IfftPlanR', 'CztPlan']
-FK = ['fft(complex)', 'fft(real)', 'ifft', 'irfft', 'xcorr', 'FftFilter', 'welch', 'resample', 'randn', 'rand', 'randi', 'rng+randn', 'awgn', 'window::hann', 'czt']
+FK = ['fft(complex)', 'fft(real)', 'ifft', 'irfft', 'xcorr', 'FftFilter', 'welch', 'resample', 'randn', 'rand', 'randi', 'rng+randn', 'awgn', 'window::hann', 'czt', 'scalar randn/rand/randi']
 
 def o_race(spec, r, extra):
     if r['status'] == 'timeout': return False, 'stress run timed out'
@@ -105,7 +105,7 @@ def job_free(res, fk, n):
     else:
         sites = '; '.join(f'{cnt} stores into pre-existing {k[0]} block {k[1][:90]}' for k, cnt in list(bad.items())[:3])
         why = f'{label} writes to memory shared between threads: {sites}'
-        if fk in (8, 9, 10, 11, 12):
+        if fk in (8, 9, 10, 11, 12, 15):
             confirm(res, PID, HARNESS, 'h_rng_threads', [('i32', 42), ('i32', 64)], 'i32', 'rng', ORACLES, f'wset:free:{FK[fk]}', why, timeout=120)
         else:
             for it in (2000, 20000):
